@@ -293,7 +293,19 @@ def _check(area, pid, tier, seed, t0, args):
     discharged = len([k for k in mine if k not in dirty]) if build_ok else 0
 
     # 4: correspondence + predicate net
-    cases = list(area.generate(rng, tier))
+    cases = []
+    try:
+        for c in area.generate(rng, tier):
+            cases.append(c)
+    except subprocess.TimeoutExpired:
+        raise
+    except Exception as e:                               # noqa
+        # the harness drives the real code in-process and reads its objects: on the unchanged tree this never raises, so an
+        # exception here means the code no longer behaves in a way the correspondence can even be evaluated on - the tie is
+        # broken (reported like a broken correspondence: the search below looks for a failing input)
+        tb = traceback.format_exc()
+        broken.append(('harness', 'driving the real code raised %s after %d cases: %s' % (
+            type(e).__name__, len(cases), ' | '.join(tb.strip().splitlines()[-6:])[:1200])))
     evaluations = len(cases)
     sigs = {}
     for c in cases:
@@ -361,7 +373,16 @@ def _check(area, pid, tier, seed, t0, args):
         budget_t = time.time() + (600 if tier == 'thorough' else 120)
         it = srch(rng, tier) if srch else area.generate(random.Random(seed + 1), 'thorough')
         n_search = 0
-        for c in it:
+
+        def guarded(gen):
+            try:
+                for x in gen:
+                    yield x
+            except subprocess.TimeoutExpired:
+                raise
+            except Exception:                            # noqa  (already reported above when it comes from the harness)
+                return
+        for c in guarded(it):
             n_search += 1
             if c.fail:
                 fid = area.classify(c) if hasattr(area, 'classify') else None
